@@ -204,7 +204,10 @@ def add_pre_citation(citation: FullCaseCitation, words: Tokens) -> None:
             end - start
         )
 
-    citation.metadata.pin_cite = clean_pin_cite(m["pin_cite"]) or None
+    # keep a pin cite found after the citation unless one precedes it
+    citation.metadata.pin_cite = (
+        clean_pin_cite(m["pin_cite"]) or citation.metadata.pin_cite
+    )
     citation.metadata.antecedent_guess = m["antecedent"]
     match_length = m.span()[1] - m.span()[0]
     citation.full_span_start = citation.span()[0] - match_length
